@@ -41,7 +41,9 @@ GNext == /\ \/ \E i \in Runs : GRunCall(i) \/ RunStep(i)
             \/ (LoopExit /\ schedCancelled) \/ SchedReturn
          /\ UNCHANGED hold
 
-Terminal == /\ \A j \in Cans : cpc[j] = "ret"
+\* (with a caller's Cancel besides the loop's own, the loop may leave before it evaluates the
+\* condition: its own Cancel then never happens)
+Terminal == /\ \A j \in Cans : cpc[j] = "ret" \/ (j = LoopCan /\ NC > 1 /\ cpc[j] = "idle" /\ spc = "returned")
             /\ \A i \in Runs : rpc[i] = "done" \/ hold[i] = "waiting"
             /\ UseSched => spc = "returned"
 Emit == Terminal => PrintT(<<"SCN", ToJson([nr |-> NR, nc |-> NC, sched |-> UseSched, conderr |-> CondErr,
